@@ -63,6 +63,9 @@ fn main() {
                 scenarios = args[i + 1].clone();
                 i += 1
             }
+            "--no-guard" => {
+                calls::NO_GUARD.store(true, std::sync::atomic::Ordering::Relaxed);
+            }
             "--only" => {
                 only = Some(args[i + 1].clone());
                 i += 1
@@ -109,7 +112,7 @@ fn main() {
             d_exact::run_exact(&mut ctx, false);
         }
         "c14" => d_exact::run_exact(&mut ctx, true),
-        "c10" => d_hist::run_c10(&mut ctx),
+        "c10" => d_hist::run_c10(&mut ctx, &scenarios),
         "c13" => d_variants::run_c13(&mut ctx),
         "c12" => d_ctor::run_c12(&mut ctx, &scenarios),
         "c11" => d_threads::run_c11(&mut ctx, &scenarios),
